@@ -775,7 +775,13 @@ func genLoudCase(r *Rng) []Op {
 	if r.Chance(1, 2) {
 		lay := g.lay
 		if r.Chance(1, 4) {
-			lay = genLayout(r, false)
+			if r.Bool() {
+				lay = genLayout(r, false)
+			} else {
+				// a near miss: the same steps, one archive longer — under a single-archive selection
+				// or a recent window every series asked for has the same shape in both files
+				lay = nearLayout(r, g.lay)
+			}
 		}
 		ops = g.writeFile(ops, "dst/a.wsp", lay, r.Intn(3))
 		dstThere = true
@@ -857,7 +863,14 @@ func genLoudCase(r *Rng) []Op {
 			a := r.Intn(g.lay.Ret(0))
 			wv = fmt.Sprintf("archive=%d from=%d until=%d", []int{-1, r.Intn(g.lay.K())}[r.Intn(2)], g.now-a, g.now-r.Intn(a+1))
 		}
-		switch r.Intn(3) {
+		switch r.Intn(4) {
+		case 3:
+			// copy into a destination that is a near miss of the source (the options name the
+			// source's layout): refused without writing, whatever is selected
+			ops = g.writeFile(ops, "src/nm.wsp", g.lay, 1+r.Intn(2))
+			ops = g.writeFile(ops, "dst/nm.wsp", nearLayout(r, g.lay), r.Intn(2))
+			ops = append(ops, Op{fmt.Sprintf("cmd copy pairs=src/nm.wsp>dst/nm.wsp %s copynan=%d %s%s", g.opts(), r.Intn(2), wv, to), true})
+			ops = g.fdisks(ops, true, "dst/nm.wsp")
 		case 0:
 			ops = append(ops, Op{fmt.Sprintf("cmd sum items=%s> itempat=im srcpat=*.wsp header=1 %s%s", strings.Join(fs, "+"), wv, to), true})
 		case 1:
